@@ -11,6 +11,9 @@ LEVEL = "model_checking"
 BAD = 99999999
 
 
+XPAT = [-1]
+
+
 def run_case(darsia, rng, tid, cfg, nextra, rgb, dtype, shape, probe_is_base):
     calls = []
     recording = {"on": False}
@@ -50,6 +53,14 @@ def run_case(darsia, rng, tid, cfg, nextra, rgb, dtype, shape, probe_is_base):
 
     base_a = arr()
     extras_a = [arr() for _ in range(nextra)]
+    # (the extra baselines by turns: other recordings; the very recording of the baseline passed again - the learned filter is
+    # zero, cleaning still clips negative signals; the baseline among other recordings)
+    if nextra >= 1:
+        XPAT[0] += 1
+        if XPAT[0] % 3 == 1:
+            extras_a = [base_a.copy() for _ in range(nextra)]
+        elif XPAT[0] % 3 == 2:
+            extras_a[0] = base_a.copy()
     # ONE analysis object serves several probes one after the other (that is how it is used on an image series): every
     # call is judged on its own; the last probe is the baseline itself
     probes = [base_a.copy() if probe_is_base else arr(), arr(), base_a.copy()]
